@@ -323,7 +323,49 @@ def r14_4(prog: Program, rep):
            "st_ino" in src and "st_size" in src and "st_mtime" in src, src[-150:], pk.node.lineno)
 
 
+def r14_5(prog: Program, rep):
+    """Bitmap entries may be stored XOR-compressed against an earlier entry (xor_offset > 0), which may itself be
+    compressed.  What is handed out must be the RESOLVED bitmap: the operand XOR-ed with an entry's stored bits has to be
+    the result of resolving the base (the recursive get_bitmap call), never another entry's stored `.bitmap` field."""
+    m = prog.module("dulwich/bitmap.py")
+    f = m.funcs.get("PackBitmap.get_bitmap")
+    if f is None:
+        raise AnalysisError("PackBitmap.get_bitmap not found")
+    g = cfg_of(prog, f)
+    from sa.flow import reaching_defs
+    rd = reaching_defs(g)
+    n = 0
+    for i, nd in g.nodes.items():
+        for e in node_exprs(nd):
+            for x in [x for x in ast.walk(e) if isinstance(x, ast.BinOp) and isinstance(x.op, ast.BitXor)]:
+                n += 1
+                ops = [x.left, x.right]
+                stored = [o for o in ops if isinstance(o, ast.Attribute) and o.attr == "bitmap"]
+                other = [o for o in ops if o not in stored]
+                ok = len(stored) == 1 and len(other) == 1
+                why = "both operands are stored `.bitmap` fields: the base is used in its compressed form" if len(stored) == 2 else ""
+                if ok:
+                    o = other[0]
+                    resolved = isinstance(o, ast.Call) and callee_name(o) == "get_bitmap"
+                    if isinstance(o, ast.Name):
+                        defs = [g.nodes[d] for d in rd[i].get(o.id, ())]
+                        resolved = bool(defs) and all(dn.kind == "stmt" and isinstance(dn.ast, ast.Assign) and isinstance(dn.ast.value, ast.Call)
+                                                      and callee_name(dn.ast.value) == "get_bitmap" for dn in defs)
+                    ok = resolved
+                    why = f"`{norm(o)}` is not the result of resolving the base with get_bitmap()"
+                rep.ob("R14.5", m.rel, f.qual, f"`{norm(x, 60)}`: the base operand is the resolved bitmap of the base entry", ok,
+                       why + ": with an XOR chain of depth two or more the answer is a wrong object set (reachability answers and "
+                       "the objects chosen for a fetch change with the presence of the bitmap)", x.lineno)
+    if n < 1:
+        raise AnalysisError("PackBitmap.get_bitmap: no XOR decompression found")
+    # the writer only ever XORs against entries within the byte-sized offset the reader can follow
+    src = norm(f.node, 100000)
+    rep.ob("R14.5", m.rel, f.qual, "the base is located `xor_offset` entries back in the same ordered list", "current_idx - entry.xor_offset" in src
+           and "entry.xor_offset <= current_idx" in src.replace("current_idx >= entry.xor_offset", "entry.xor_offset <= current_idx"), "", f.node.lineno)
+
+
 def run(prog: Program, rep, tier="quick"):
+    rep.rule("R14.5", "XOR-compressed bitmap entries are resolved against the RESOLVED base (recursive get_bitmap), never against stored bits")
     rep.rule("R14.1", "commit-graph: a miss falls back to the store at every use site; the graph replaces only the default "
                       "parents function; grafts/shallows consulted first")
     rep.rule("R14.2", "a MIDX hit dereferences the named pack before answering; Pack.bitmap is checksum-bound and every "
@@ -336,6 +378,7 @@ def run(prog: Program, rep, tier="quick"):
     r14_2(prog, rep)
     r14_3(prog, rep)
     r14_4(prog, rep)
+    r14_5(prog, rep)
     rep.floor("R14.1", 6)
     rep.floor("R14.2", 8)
     rep.floor("R14.3", 4)
